@@ -173,7 +173,10 @@ TEXT['C12'] = dict(
          'boundary value (0, f_eq(r_min), f_eq(foot) outside r_max) or the 2-D spline of f at the Heun foot written out from the '
          'property (drift = spline derivatives of phi / r, second slope evaluated at the Euler foot or 0 outside the radial domain, '
          'theta modulo 2 pi). Implicit: IF the iteration stops, the feet are one trapezoid update (r clipped, theta wrapped) of a '
-         'previous iterate from which they differ by at most tol, and f is evaluated there by the same rule.',
+         'previous iterate from which they differ by at most tol, and f is evaluated there by the same rule. Class level: '
+         'PoloidalAdvection.step (both variants) is verified to interpolate the slice it is given and to pass its own grid points, '
+         'work arrays, the potential spline, the new spline of f, the constants and flags in the right positions - its '
+         'postcondition is the kernel postcondition over the object attributes (2-D interpolator through an assumed contract).',
     note=PROOF_NOTE + 'Not decided: termination of the implicit iteration; exact rigid rotation and third-order agreement '
          '(numerical, bounded tier). PoloidalAdvection.step / gridStep wiring is covered by the bounded tiers only.',
     technique='double-loop invariants with let-bound characteristic formulas, ghost arrays for the previous iterate, z3')
